@@ -272,6 +272,30 @@ def ascii_predicate(prog, fid, depth=0):
     return ok_cmp
 
 
+def accepted_bytes(prog, fn, depth=0):
+    """The set of byte values a small predicate (a function or closure over one u8) answers true for, or None."""
+    from . import seqmodel
+    if fn is None or depth > 2:
+        return None
+    nargs = fn.arg_count
+    try:
+        return {c for c in range(256) if seqmodel.eval_pure(fn, ([0] * (nargs - 1)) + [c])}
+    except seqmodel.Unsupported:
+        pass
+    # |c| P(c)  or  |c| !P(c): one call of a local predicate on the parameter
+    calls = [(bb, tt) for bb, tt in fn.calls() if not fn.blocks[bb]["cleanup"]]
+    if len(calls) != 1 or (callee_of(calls[0][1]).get("rpath") or "") not in prog.fns:
+        return None
+    inner = accepted_bytes(prog, prog.fns[callee_of(calls[0][1])["rpath"]], depth + 1)
+    if inner is None:
+        return None
+    nots = [s for bb, idx, s in fn.stmts() if s["k"] == "assign" and s["rv"]["k"] == "un" and s["rv"]["op"] == "Not"]
+    others = [s for bb, idx, s in fn.stmts() if s["k"] == "assign" and s["rv"]["k"] in ("bin", "agg")]
+    if others or len(nots) > 1:
+        return None
+    return (set(range(256)) - inner) if nots else inner
+
+
 def ax3_ascii_utf8(prog, cg, an, o, scope):
     if o.kind != "unwrap":
         return None
@@ -280,6 +304,17 @@ def ax3_ascii_utf8(prog, cg, an, o, scope):
     if not df.is_call(e, "core::str::converts::from_utf8"):
         return None
     arg = e[2][0]
+    # (input.split_at(input.iter().take_while(|c| P(c)).count())).0 : the longest prefix whose bytes all satisfy P
+    if isinstance(arg, tuple) and arg[0] == "field" and arg[2] == 0 and df.is_call(arg[1], "<impl [T]>::split_at") and len(arg[1][2]) == 2:
+        src, n = arg[1][2]
+        if df.is_call(n, "Iterator::count") and df.is_call(n[2][0], "Iterator::take_while") and len(n[2][0][2]) == 2 and \
+                df.is_call(n[2][0][2][0], "<impl [T]>::iter") and n[2][0][2][0][2][0] == src:
+            clos = n[2][0][2][1]
+            if isinstance(clos, tuple) and clos[0] == "closure" and clos[1] in prog.fns:
+                acc = accepted_bytes(prog, prog.fns[clos[1]])
+                if acc is not None and acc and max(acc) < 128:
+                    return ("AX3", "the slice is the prefix of bytes accepted by the take_while predicate, which only accepts ASCII bytes %s" % sorted(acc)[:12])
+        return None
     # (split_at_cond(input, closure)).0
     if not (isinstance(arg, tuple) and arg[0] == "field" and arg[2] == 0 and df.is_call(arg[1], "parser::split_at_cond")):
         return None
